@@ -3,6 +3,7 @@
 -/
 import DDProofs.Canon
 import DDProofs.Inv
+import DDProofs.UsedObs
 namespace DD
 
 /-- C02 (core): in a manager satisfying the invariant, two references are equal exactly
@@ -32,5 +33,37 @@ theorem C02_reduced_ordered (m : Mgr) (h : Inv m) (u : Nat) (n : Nd) (hn : m.tbl
 
 /-- non-vacuity: the empty manager satisfies the invariant -/
 example : Inv ({} : Mgr) := Inv.init
+
+/-! ### non-vacuity on a USED manager (`usedM`, DDProofs.UsedExample: levels c, a, d, b; thirteen
+nodes; 4 = `a ∧ b`, 13 = `ite(c ≡ d, a ∧ b, ¬b)` held, 14 = `a ∨ d` garbage; reached by a guarded
+history, so `Inv` comes from `reachable_inv`) -/
+
+/-- the theorems instantiated on complemented references of different supports: the FOUR-variable
+function `f` (13) against its complement, against `a ∨ d`; validity / unsatisfiability tests; the
+structural clauses on the top node of `f`, whose else-edge is complemented -/
+example :
+    ((∀ a, den usedM.tbl 13 a = den usedM.tbl (-13) a) ↔ (13 : Int) = -13) ∧
+    ((∀ a, den usedM.tbl (-13) a = den usedM.tbl 14 a) ↔ (-13 : Int) = 14) ∧
+    ((-14 : Int) = 1 ↔ ∀ a, den usedM.tbl (-14) a = true) ∧
+    ((-4 : Int) = -1 ↔ ∀ a, den usedM.tbl (-4) a = false) ∧
+    ((-10 : Int) ≠ 12 ∧ (0 : Int) < 12 ∧ 0 < usedM.tbl.levelOf (-10) ∧ 0 < usedM.tbl.levelOf 12 ∧
+      ∀ u', usedM.tbl.node? u' = some ⟨0, -10, 12⟩ → u' = 13) :=
+  ⟨C02_canonical usedM usedM_good.inv 13 (-13) (usedM_mem (by decide)) (usedM_mem (by decide)),
+   C02_canonical usedM usedM_good.inv (-13) 14 (usedM_mem (by decide)) (usedM_mem (by decide)),
+   C02_eq_true_iff_valid usedM usedM_good.inv (-14) (usedM_mem (by decide)),
+   C02_eq_false_iff_unsat usedM usedM_good.inv (-4) (usedM_mem (by decide)),
+   C02_reduced_ordered usedM usedM_good.inv 13 ⟨0, -10, 12⟩ usedM_shape.2.2.1⟩
+
+/-- evaluated: the same function built by ANOTHER route gets the SAME reference — `b ∧ a`,
+`¬(¬a ∨ ¬b)` and `ite(b, a, FALSE)` all answer 4 = `a ∧ b`; `ite(c xor d, b, ¬(a ∧ b))` — the complement of `f` written
+another way — answers −13; and the tables of different references differ -/
+example :
+    (apply "and" 3 (some 2) none usedM).1 = .ok 4 ∧
+    (apply "or" (-2) (some (-3)) none usedM).1 = .ok (-4) ∧
+    (ite 3 2 (-1) usedM).1 = .ok 4 ∧
+    (ite (-7) 3 (-4) usedM).1 = .ok (-13) ∧
+    tt4 usedM.tbl 13 ≠ tt4 usedM.tbl (-13) ∧ tt4 usedM.tbl (-13) ≠ tt4 usedM.tbl 14 := by
+  refine ⟨by decide +kernel, by decide +kernel, by decide +kernel, by decide +kernel,
+    by decide +kernel, by decide +kernel⟩
 
 end DD
